@@ -2,7 +2,7 @@
    concerned: MafWriter.__init__ (header validated with the writer's mode and
    logger, header and column names written) and __iadd__ with
    assume_sorted=True (scheme fixed from the first record when the header names
-   none, record validated with reset_errors=True against the scheme, line
+   none - after the column-name check of the repaired code -, record validated with reset_errors=True against the scheme, line
    written).  The SortOrderChecker the writer creates is never consulted by
    __iadd__, so it is not modelled; the sorting path (assume_sorted=False)
    belongs to another cluster. *)
@@ -10,6 +10,14 @@ From MafVerif Require Import lib.Base lib.Str model.RecordOps model.Validation m
   model.RecordParse.
 
 Definition N_NONE : str := [78;111;110;101]%N. (* None *)
+
+(* MafWriter.__check_column_names (repaired code): the column names a
+   scheme-less writer can put on the column line - no name contains the column
+   or a line separator, and the first name does not start with '#' *)
+Definition name_sep_free (n : str) : bool := negb (existsb (fun c => N.eqb c TAB || N.eqb c CR || N.eqb c LF) n).
+Definition names_writable (names : list str) : bool :=
+  forallb name_sep_free names
+  && match names with n0 :: _ => negb (startswith n0 [HASH]) | [] => true end.
 
 Section Writer.
   Context {C W : Type}.
@@ -64,11 +72,15 @@ Section Writer.
      raises: the scheme may have been fixed and the column names written), and
      the validated record or the exception *)
   Definition writer_iadd (w : writer) (r : mrec) : log * writer * res mrec :=
+    (* [str(key) for key in record.keys()] *)
+    let names := map (fun o => match o with Some c => ckey c | None => N_NONE end)
+                     (rlist (mcols r)) in
+    (* self.__check_column_names(column_names): before the scheme is fixed and
+       before anything is written *)
+    if scheme_missing (w_scheme w) && negb (names_writable names) then ([], w, Raise ValueError)
+    else
     let '(sch, out1) :=
       if scheme_missing (w_scheme w) then
-        (* [str(key) for key in record.keys()] *)
-        let names := map (fun o => match o with Some c => ckey c | None => N_NONE end)
-                         (rlist (mcols r)) in
         let s := no_restrictions names in
         (s, [join [TAB] (s_names s)])
       else
